@@ -6,7 +6,13 @@
    and Mesh2D<T> with f64 nodes carried exactly (rationals in the exact tier).
    Definitions only. *)
 From Coq Require Import List Arith ZArith Bool.
-From OV Require Import Base.Panic Base.Arith Base.Flat Base.FnAst Model.Vector Model.Matrix Model.Mesh.
+From OV Require Import Base.Panic.
+From OV Require Import Base.Arith.
+From OV Require Import Base.Flat.
+From OV Require Import Base.FnAst.
+From OV Require Import Model.Vector.
+From OV Require Import Model.Matrix.
+From OV Require Import Model.Mesh.
 Import ListNotations.
 
 Section Ops.
